@@ -593,6 +593,21 @@ func cmdExecRunner(c *Ctx, in map[string]string) {
 	}
 	// the property itself, evaluated on the implementation: for an addressed registered command the function runs with the
 	// arguments split on SINGLE spaces and the raw remainder iff at least MinArgs are present, else a usage reply
+	// "no other message invokes any function": a text that is not prefix + name [+ SPACE + rest] (or no PRIVMSG,
+	// or no source) does nothing at all
+	if !strings.Contains(e.Last(), "\n") {
+		addressed := false
+		if e.Source != nil && e.Command == "PRIVMSG" && strings.HasPrefix(e.Last(), pfx) {
+			nm := e.Last()[len(pfx):]
+			if i := strings.IndexByte(nm, ' '); i >= 0 {
+				nm = nm[:i]
+			}
+			addressed = len(nm) >= 1 && len(nm) <= 20 && strings.Trim(nm, "abcdefghijklmnopqrstuvwxyz0123456789-_") == ""
+		}
+		if !addressed && action != "none" {
+			c.R.Violation("cmd.unaddressed", hin, action, "none", "a message that does not address a command (prefix + name, then the end or a SPACE) must not invoke anything")
+		}
+	}
 	if e.Source != nil && e.Command == "PRIVMSG" && strings.HasPrefix(e.Last(), pfx) {
 		rest := e.Last()[len(pfx):]
 		name, raw := rest, ""
@@ -683,7 +698,8 @@ func runC18(c *Ctx) {
 		if c.Rng.Chance(10) {
 			name = "help"
 		}
-		args := c.Rng.Pick([]string{"", " a", " a b", " a  b", "  a", " ", " a\nb", " say", " x y z", "a"})
+		// (incl. a name directly followed by something that is neither a name character nor a SPACE)
+		args := c.Rng.Pick([]string{"", " a", " a b", " a  b", "  a", " ", " a\nb", " say", " x y z", "a", "?", ", you there", "\tx", "!", "X y", ".", "\n", "\x00 a"})
 		p := pfx
 		if c.Rng.Chance(15) {
 			p = c.Rng.Pick(prefixes)
